@@ -217,6 +217,11 @@ pub struct StreamScenario {
     /// run with a tracing subscriber that enables every span and event (thread-scoped)
     #[serde(default)]
     pub trace: bool,
+    /// C09 only: instead of `Framed::new` over the simulated link, make the connection with the
+    /// real `Builder` (0 = tcp, 1 = udp) against a loopback peer that sends `inbound` frame by
+    /// frame; the gate setting then travels through `Builder::verify_version`
+    #[serde(default)]
+    pub via_builder: Option<u8>,
     pub ops: Vec<AppOp>,
 }
 
